@@ -114,4 +114,35 @@ pub fn run(ctx: &mut Ctx) {
     match guarded(|| -> Result<bool, String> { let a = serde_arrow::to_marrow(&fb, &blobs).map_err(|e| e.to_string())?; let v: Vec<_> = a.iter().map(|x| x.as_view()).collect(); let back: Vec<Item<&serde_bytes::Bytes>> = serde_arrow::from_marrow(&fb, &v).map_err(|e| e.to_string())?; Ok(back.iter().map(|x| x.0.to_vec()).collect::<Vec<_>>() == blobs.iter().map(|x| x.0.to_vec()).collect::<Vec<_>>()) }) {
         Out::Ok(true) => ctx.count("borrowed_bytes:ok"), Out::Ok(false) => ctx.fail(idx, "roundtrip_changes_values", "borrowed &[u8] targets differ".into()), Out::Err(e) => ctx.fail(idx, "borrowed_target_fails", e), Out::Panic(p) => ctx.fail(idx, "panic", p),
     }
+    // a record of borrowed fields, schema traced from the type: required and optional &str, required and optional &[u8] (a plain
+    // &[u8] is WRITTEN element by element as a sequence of u8 into the LargeBinary column the type is traced as), nested once
+    {
+        #[derive(serde::Serialize, serde::Deserialize, PartialEq, Debug, Clone)]
+        struct BInner<'a> { #[serde(borrow)] ob: Option<&'a [u8]>, #[serde(borrow)] s: &'a str }
+        #[derive(serde::Serialize, serde::Deserialize, PartialEq, Debug, Clone)]
+        struct Borrowed<'a> { #[serde(borrow)] b: &'a [u8], #[serde(borrow)] ob: Option<&'a [u8]>, #[serde(borrow)] os: Option<&'a str>, #[serde(borrow)] inner: Option<BInner<'a>>, #[serde(borrow)] l: Vec<Option<&'a [u8]>> }
+        let data: Vec<Vec<u8>> = vec![vec![], vec![0], vec![1, 2, 3], (0..12u8).collect(), (0..13u8).collect(), vec![255; 40]];
+        let texts = ["", "a", "héllo"];
+        let mut values: Vec<Borrowed> = vec![];
+        for i in 0..9usize {
+            let d = |k: usize| data[(i + k) % data.len()].as_slice();
+            values.push(Borrowed { b: d(0), ob: if i % 3 == 1 { None } else { Some(d(1)) }, os: if i % 2 == 0 { Some(texts[i % 3]) } else { None },
+                inner: if i % 4 == 3 { None } else { Some(BInner { ob: if i % 2 == 0 { Some(d(2)) } else { None }, s: texts[(i + 1) % 3] }) },
+                l: (0..i % 4).map(|k| if k == 1 { None } else { Some(d(3 + k)) }).collect() });
+        }
+        for lu in [true, false] {
+            let mut o = TOpts::default(); o.large_utf8 = lu; o.large_list = !lu;
+            let r = guarded(|| -> Result<bool, String> {
+                let fields = Vec::<Field>::from_type::<Borrowed>(o.to_options()).map_err(|e| format!("from_type: {}", e))?;
+                let a = serde_arrow::to_marrow(&fields, &values).map_err(|e| format!("to_marrow: {}", e))?;
+                let v: Vec<_> = a.iter().map(|x| x.as_view()).collect();
+                let back: Vec<Borrowed> = serde_arrow::from_marrow(&fields, &v).map_err(|e| format!("from_marrow: {}", e))?;
+                Ok(back == values)
+            });
+            match r {
+                Out::Ok(true) => ctx.count("borrowed_record:ok"), Out::Ok(false) => ctx.fail(idx, "roundtrip_changes_values", format!("record of borrowed fields under {:?} came back changed", o)),
+                Out::Err(e) => ctx.fail(idx, "borrowed_target_fails", e), Out::Panic(p) => ctx.fail(idx, "panic", p),
+            }
+        }
+    }
 }
